@@ -403,7 +403,9 @@ def derive_step(ctx, rep):
                 err = ex
             except Exception as ex:  # noqa: anything else escaping one iteration is reported with the pre-state
                 err = ex
-                from .symstr import model_value
+                from .symstr import model_value, proxy_fault
+                if proxy_fault(ex):
+                    raise   # raised by a proxy, not by the code under test: this harness cannot drive the function as it is now (-> skipped)
                 from .ctx import table_model
                 m = eng.current_model()
                 col.candidate({"prop": rep.pid, "kind": "derive_step", "table": table_model(m, caps),
